@@ -1,6 +1,6 @@
 package main
 
-// C31 helpers: the two narrow website-host exemptions from key equality, and the
+// C31 helpers: the narrow website-host exemption from key equality, and the
 // end-to-end view of multi-delete batches (state of hook-denied keys before /
 // after the request, the DeleteResult document).
 
@@ -29,17 +29,9 @@ func (ck *c31Checker) websiteConfigOf(bucket string) *storage.WebsiteConfigurati
 	return c
 }
 
-func (ck *c31Checker) isErrorDocument(bucket, key string) bool {
-	c := ck.websiteConfigOf(bucket)
-	return c != nil && c.ErrorDocumentKey != nil && *c.ErrorDocumentKey == key
-}
-
 // websiteReadExempt names the exemption under which a website-host object read
 // whose key differs from every allowed key is still accepted, or "".
 //
-//   - error document: the bucket's configured ErrorDocument is read to render an
-//     error (status >= 400) for a request that was itself allowed on this bucket
-//     under a covering operation;
 //   - directory probe: after the allowed key K (no trailing slash) was not found,
 //     HeadObject(K + "/" + index suffix) decides between "302 to K/" and the error
 //     page; the response carries no data or metadata of the probed object.
@@ -56,10 +48,6 @@ func (ck *c31Checker) websiteReadExempt(rq c31Req, resp *respInfo, c sCall, call
 	cfg := ck.websiteConfigOf(c.Bucket)
 	if cfg == nil {
 		return ""
-	}
-	asHead := c
-	if rq.Spec.Method == "HEAD" {
-		asHead.Method = "HeadObject" // a HEAD request is authorized as HeadObject even where it opens the document
 	}
 	if c.Method == "HeadObject" && cfg.IndexDocumentSuffix != "" && (resp.Status == 302 || resp.Status >= 400) {
 		for _, p := range calls {
